@@ -6,8 +6,6 @@ sys.path.insert(0, HERE)
 from vlib.props import PROPS  # noqa
 
 NA = {
-    "C03": "needs ECDSA P-256 / SHA-256 on symbolic data and whole ceremonies: out of reach for CBMC and for a hand encoder "
-           "(DESIGN.md 2 F5-F7, 5); its non-crypto fragments are decided under C04, C05, C08, C13",
     "C06": "a search over serialisations (Debug/CBOR/JSON) of values produced by whole ceremonies with real key generation; "
            "neither producers nor formatters can be executed symbolically (DESIGN.md 5)",
 }
